@@ -218,10 +218,10 @@ theorem store_read (x : UInt64) :
     (writeRawFloat x 4 >>= fun bs => readRawFloat bs 4) = .ok (widen (narrow x)) ∧
     (writeRawFloat x 8 >>= fun bs => readRawFloat bs 8) = .ok x := by
   constructor
-  · simp only [writeRawFloat, readRawFloat, bind, Except.bind, toLE_length, and_self, if_true]
+  · simp only [writeRawFloat_eq, readRawFloat_eq, bind, Except.bind, toLE_length, and_self, if_true]
     rw [ofLE_toLE, Nat.mod_eq_of_lt (by exact (narrow x).toNat_lt), UInt32.ofNat_toNat]
   · have h48 : ¬ (8 = 4) := by decide
-    simp only [writeRawFloat, readRawFloat, bind, Except.bind, toLE_length, and_self, if_true,
+    simp only [writeRawFloat_eq, readRawFloat_eq, bind, Except.bind, toLE_length, and_self, if_true,
       h48, if_false]
     rw [ofLE_toLE, Nat.mod_eq_of_lt (by exact x.toNat_lt), UInt64.ofNat_toNat]
 
@@ -231,7 +231,7 @@ same 4 bytes back (non-NaN). -/
 theorem read_store_stable (bs : Bytes) (hlen : bs.length = 4)
     (hnn : ¬ isNaN (UInt32.ofNat (ofLE bs))) :
     (readRawFloat bs 4 >>= fun v => writeRawFloat v 4) = .ok bs := by
-  simp only [readRawFloat, writeRawFloat, bind, Except.bind, hlen, and_self, if_true]
+  simp only [readRawFloat_eq, writeRawFloat_eq, bind, Except.bind, hlen, and_self, if_true]
   rw [narrow_widen _ hnn, UInt32.toNat_ofNat']
   have hlt := ofLE_lt bs
   rw [hlen] at hlt
@@ -243,7 +243,7 @@ theorem read_store_stable (bs : Bytes) (hlen : bs.length = 4)
 /-- Any other size is the fatal error of the C code, never a silent store. -/
 theorem bad_size (x : UInt64) (size : Nat) (h4 : size ≠ 4) (h8 : size ≠ 8) :
     writeRawFloat x size = .error .fatalBadSize := by
-  simp [writeRawFloat, h4, h8]
+  simp [writeRawFloat_eq, h4, h8]
 
 /-- `ffi.cast("double", b"A")` / `ffi.cast("float", "é")`: the double made from
 a character ordinal is a finite non-negative number whose value is that integer
@@ -258,7 +258,7 @@ theorem ordinal_cast_exact (n : Nat) (hn : n < 0x110000) :
 /-- `float _Complex` / `double _Complex`: the real part is stored at the start
 and the imaginary part right behind it, each exactly as a `float`/`double`
 store of that part; everything else in the buffer is untouched; reading gives
-each part as a `float`/`double` read. -/
+each part as the `float`/`double` read of what was stored (`store_read`). -/
 theorem complex_is_pairwise (buf : Bytes) (off : Nat) (re im : UInt64) (size : Nat)
     (hsz : size = 8 ∨ size = 16) (hfit : off + size ≤ buf.length) :
     ∃ r i out, writeRawFloat re (size / 2) = .ok r ∧ writeRawFloat im (size / 2) = .ok i ∧
@@ -270,10 +270,11 @@ theorem complex_is_pairwise (buf : Bytes) (off : Nat) (re im : UInt64) (size : N
       (blit buf off r).bind (fun b => blit b (off + half) i)
         = some (buf.take off ++ r ++ i ++ buf.drop (off + size)) ∧
       slice (buf.take off ++ r ++ i ++ buf.drop (off + size)) off half = some r ∧
-      slice (buf.take off ++ r ++ i ++ buf.drop (off + size)) (off + half) half = some i := by
+      slice (buf.take off ++ r ++ i ++ buf.drop (off + size)) (off + half) half = some i ∧
+      slice (buf.take off ++ r ++ i ++ buf.drop (off + size)) off size = some (r ++ i) := by
     intro half r i hr hi hs
     have htake : (buf.take off).length = off := by rw [List.length_take]; omega
-    refine ⟨?_, ?_, ?_⟩
+    refine ⟨?_, ?_, ?_, ?_⟩
     · have := blit_blit buf off r i (by omega)
       rw [hr, hi] at this
       rw [this]
@@ -281,25 +282,35 @@ theorem complex_is_pairwise (buf : Bytes) (off : Nat) (re im : UInt64) (size : N
     · rw [List.append_assoc (buf.take off ++ r)]
       exact slice_mid _ _ _ _ _ htake hr
     · exact slice_mid (buf.take off ++ r) i _ _ _ (by rw [List.length_append, htake, hr]) hi
+    · rw [List.append_assoc (buf.take off) r i]
+      exact slice_mid _ _ _ _ _ htake (by rw [List.length_append, hr, hi]; omega)
   rcases hsz with h | h <;> subst h
-  · obtain ⟨k1, k2, k3⟩ := key 4 (toLE 4 (narrow re).toNat) (toLE 4 (narrow im).toNat)
+  · obtain ⟨k1, k2, k3, _⟩ := key 4 (toLE 4 (narrow re).toNat) (toLE 4 (narrow im).toNat)
       (toLE_length _ _) (toLE_length _ _) rfl
-    refine ⟨toLE 4 (narrow re).toNat, toLE 4 (narrow im).toNat, _, rfl, rfl, ?_, rfl, ?_⟩
-    · show (Except.ok ((blit buf off _).bind fun b => blit b (off + 4) _) : Except Err (Option Bytes)) = _
-      rw [k1]
-    · show (match slice _ off 4, slice _ (off + 4) 4 with
-        | some r, some i => _
-        | _, _ => _) = _
-      rw [k2, k3]
-  · obtain ⟨k1, k2, k3⟩ := key 8 (toLE 8 re.toNat) (toLE 8 im.toNat)
+    refine ⟨toLE 4 (narrow re).toNat, toLE 4 (narrow im).toNat, _, ?_, ?_, ?_, rfl, ?_⟩
+    · rw [writeRawFloat_eq]; rfl
+    · rw [writeRawFloat_eq]; rfl
+    · rw [writeRawComplex_eq8, k1]
+    · rw [readRawComplex_eq8 _ _ _ _ k2 k3, readRawFloat_toLE4, readRawFloat_toLE4]; rfl
+  · obtain ⟨k1, k2, k3, k4⟩ := key 8 (toLE 8 re.toNat) (toLE 8 im.toNat)
       (toLE_length _ _) (toLE_length _ _) rfl
-    refine ⟨toLE 8 re.toNat, toLE 8 im.toNat, _, rfl, rfl, ?_, rfl, ?_⟩
-    · show (Except.ok ((blit buf off _).bind fun b => blit b (off + 8) _) : Except Err (Option Bytes)) = _
-      rw [k1]
-    · show (match slice _ off 8, slice _ (off + 8) 8 with
-        | some r, some i => _
-        | _, _ => _) = _
-      rw [k2, k3]
+    refine ⟨toLE 8 re.toNat, toLE 8 im.toNat, _, ?_, ?_, ?_, rfl, ?_⟩
+    · rw [writeRawFloat_eq]; rfl
+    · rw [writeRawFloat_eq]; rfl
+    · rw [writeRawComplex_eq16, k1]
+    · rw [readRawComplex_eq16 _ _ _ k4]
+      have t1 : (toLE 8 re.toNat ++ toLE 8 im.toNat).take 8 = toLE 8 re.toNat :=
+        take_app _ _ 8 (toLE_length _ _)
+      have t2 : (toLE 8 re.toNat ++ toLE 8 im.toNat).drop 8 = toLE 8 im.toNat := by
+        have := drop_app (toLE 8 re.toNat) (toLE 8 im.toNat) 8 0 (toLE_length _ _)
+        simpa using this
+      rw [t1, t2, readRawFloat_toLE8, readRawFloat_toLE8]; rfl
+
+/-- Any other size is the fatal error, for the store and for the read. -/
+theorem complex_bad_size (buf : Bytes) (off : Nat) (re im : UInt64) (size : Nat) (h8 : size ≠ 8) (h16 : size ≠ 16) :
+    writeRawComplex buf off re im size = .error .fatalBadSize ∧
+    readRawComplex buf off size = .error .fatalBadSize :=
+  ⟨writeRawComplex_bad buf off re im size h8 h16, readRawComplex_bad buf off size h8 h16⟩
 
 /-- A `long double` copied by any of the three code paths that special-case it
 (`convert_to_object`: read of an item/field; `convert_from_object`:
@@ -314,13 +325,13 @@ theorem longdouble_copy_identity (src junk junk' : Bytes) (hlen : src.length = l
     intro v j hv
     unfold ldValueBytes at hv
     constructor
-    · simp only [writeRawLongDouble, ldSize, ldValueBytes, List.length_append, List.length_take,
+    · simp only [writeRawLongDouble, ldSize_eq, ldWriteSize_eq, ldValueBytes, List.length_append, List.length_take,
         List.length_replicate, hv]
       omega
     · simp only [ldValue, writeRawLongDouble, ldValueBytes]
       rw [List.take_append_of_le_length (by omega), List.take_of_length_le (by omega)]
   have hv : (ldValue src).length = ldValueBytes := by
-    unfold ldSize at hlen
+    rw [ldSize_eq] at hlen
     simp only [ldValue, ldValueBytes, List.length_take]; omega
   have hr : readRawLongDouble src = some (ldValue src) := by simp [readRawLongDouble, hlen]
   obtain ⟨w1, w2⟩ := hw (ldValue src) junk hv
@@ -336,6 +347,104 @@ theorem longdouble_copy_identity (src junk junk' : Bytes) (hlen : src.length = l
 theorem longdouble_bad_size (src junk : Bytes) (hlen : src.length ≠ ldSize) :
     ldConvertToObject src junk = none ∧ ldConvertFromObject src junk = none := by
   simp [ldConvertToObject, ldConvertFromObject, readRawLongDouble, hlen]
+
+/-! ## the float branches of `convert_to_object`, `convert_from_object`, `do_cast`
+
+These go through the flag tests and result codes re-extracted from the C source. -/
+
+/-- The `CT_IS_LONGDOUBLE` tests of the three functions: the copy path is taken
+exactly when target type and cdata source are both `long double`; a target that
+is not `long double` always goes through `write_raw_float_data` /
+`read_raw_float_data`. -/
+theorem generated_ld_tests_meaning (ct : Nat) (c : Bool) (f : Nat) :
+    Generated.FloatExprs.toObjectViaDouble ct = (!hasLD ct) ∧
+    Generated.FloatExprs.fromObjectCopiesLongDouble ct c f = (hasLD ct && c && hasLD f) ∧
+    Generated.FloatExprs.fromObjectViaFloatStore ct = (!hasLD ct) ∧
+    Generated.FloatExprs.castCopiesLongDouble ct c f = (hasLD ct && c && hasLD f) ∧
+    Generated.FloatExprs.castViaFloatStore ct = (!hasLD ct) := ld_tests_meaning ct c f
+
+/-- `do_cast` reads the result codes of `check_bytes_for_float_compatible` the
+way that function reports them, and only a 1-byte `bytes` is accepted. -/
+theorem cast_codes_consistent :
+    Generated.FloatExprs.castResCannot Generated.FloatExprs.cbfError = true ∧
+    Generated.FloatExprs.castResCannot Generated.FloatExprs.cbfGotValue = false ∧
+    Generated.FloatExprs.castResCannot Generated.FloatExprs.cbfNoValue = false ∧
+    Generated.FloatExprs.castResNoValue Generated.FloatExprs.cbfNoValue = true ∧
+    Generated.FloatExprs.castResNoValue Generated.FloatExprs.cbfGotValue = false ∧
+    (∀ n, Generated.FloatExprs.cbfBytesLenBad n = true ↔ n ≠ 1) := by
+  refine ⟨by decide, by decide, by decide, by decide, by decide, ?_⟩
+  intro n; simp [Generated.FloatExprs.cbfBytesLenBad]
+
+/-- Storing a Python number into a `float`/`double` (not `long double`) item,
+through `convert_from_object` or `ffi.cast`, is `write_raw_float_data` of
+`PyFloat_AsDouble(ob)`; reading the item is `read_raw_float_data`; an object
+that is not a number is a `TypeError`. -/
+theorem float_paths_dispatch (ct sz : Nat) (hct : hasLD ct = false) (a : FArg) (ext : UInt64 → Bytes)
+    (junk data : Bytes) :
+    (∀ v, a.asDouble = some v → convertFromObjectFloat ct sz a ext junk = writeRawFloat v sz) ∧
+    (a.asDouble = none → convertFromObjectFloat ct sz a ext junk = .error .typeError) ∧
+    (∀ v, a.asDouble = some v → castToFloat ct sz false 0 (.other a) ext junk = writeRawFloat v sz) ∧
+    (a.asDouble = none → castToFloat ct sz false 0 (.other a) ext junk = .error .typeError) ∧
+    convertToObjectFloat ct sz data junk = (readRawFloat data sz).map .pyfloat := by
+  obtain ⟨m1, m2, m3, m4, m5⟩ := ld_tests_meaning ct a.isCData a.flags
+  refine ⟨?_, ?_, ?_, ?_, ?_⟩
+  · intro v hv
+    simp [convertFromObjectFloat, m2, m3, hct, hv]
+  · intro hv
+    simp [convertFromObjectFloat, m2, hct, hv]
+  · intro v hv
+    simp [castToFloat, checkBytesForFloat, cast_codes_consistent, m4, m5, hct, hv]
+  · intro hv
+    simp [castToFloat, checkBytesForFloat, cast_codes_consistent, m4, hct, hv]
+  · simp [convertToObjectFloat, m1, hct]
+
+/-- `ffi.cast("float", b"A")`, `ffi.cast("double", "é")`: the ordinal as a
+double goes through `write_raw_float_data`; `bytes`/`str` of another length
+cannot be cast. -/
+theorem cast_char_dispatch (ct sz : Nat) (hct : hasLD ct = false) (n len : Nat) (ext : UInt64 → Bytes) (junk : Bytes) :
+    castToFloat ct sz false 0 (.bytes 1 n) ext junk = writeRawFloat (UInt64.ofNat (natToDouble n)) sz ∧
+    castToFloat ct sz false 0 (.str true n) ext junk = writeRawFloat (UInt64.ofNat (natToDouble n)) sz ∧
+    (len ≠ 1 → castToFloat ct sz false 0 (.bytes len n) ext junk = .error .typeError) ∧
+    castToFloat ct sz false 0 (.str false n) ext junk = .error .typeError := by
+  obtain ⟨_, _, _, _, m5⟩ := ld_tests_meaning ct false 0
+  obtain ⟨c1, c2, c3, c4, c5, c6⟩ := cast_codes_consistent
+  have b1 : Generated.FloatExprs.cbfBytesLenBad 1 = false := by
+    cases h : Generated.FloatExprs.cbfBytesLenBad 1
+    · rfl
+    · exact absurd rfl ((c6 1).mp h)
+  refine ⟨?_, ?_, ?_, ?_⟩
+  · simp [castToFloat, checkBytesForFloat, b1, c2, c5, m5, hct]
+  · simp [castToFloat, checkBytesForFloat, c2, c5, m5, hct]
+  · intro hl
+    simp [castToFloat, checkBytesForFloat, (c6 len).mpr hl, c1]
+  · simp [castToFloat, checkBytesForFloat, c1]
+
+/-- A cdata that is not a primitive cannot be cast to a float type. -/
+theorem cast_rejects_nonprimitive (ct sz srcflags : Nat) (io : CastArg) (ext : UInt64 → Bytes) (junk : Bytes)
+    (h : srcflags &&& Generated.FloatExprs.CT_PRIMITIVE_ANY = 0) :
+    castToFloat ct sz true srcflags io ext junk = .error .typeError := by
+  simp [castToFloat, Generated.FloatExprs.castSourceRejected, h]
+
+/-- The `long double` copy through the three dispatching functions: when the
+target type is `long double` and the source is a `long double` cdata, the 10
+value bytes are kept whatever the padding of the temporaries holds. -/
+theorem longdouble_dispatch_identity (ct f sz : Nat) (hct : hasLD ct = true) (hf : hasLD f = true)
+    (a : FArg) (ha : a.isCData = true) (haf : a.flags = f) (hlen : a.data.length = ldSize)
+    (ext : UInt64 → Bytes) (junk : Bytes) :
+    (∃ o, convertFromObjectFloat ct sz a ext junk = .ok o ∧ ldValue o = ldValue a.data) ∧
+    (∃ o, castToFloat ct sz false 0 (.other a) ext junk = .ok o ∧ ldValue o = ldValue a.data) ∧
+    (∃ o, convertToObjectFloat ct sz a.data junk = .ok (.ldcdata o) ∧ ldValue o = ldValue a.data) := by
+  subst haf
+  obtain ⟨m1, m2, m3, m4, m5⟩ := ld_tests_meaning ct true a.flags
+  obtain ⟨⟨o1, e1, _, v1⟩, ⟨o2, e2, _, v2⟩, _⟩ := longdouble_copy_identity a.data junk junk hlen
+  have hr : readRawLongDouble a.data = some (ldValue a.data) := by simp [readRawLongDouble, hlen]
+  have c2 : Generated.FloatExprs.fromObjectCopiesLongDouble ct true a.flags = true := by rw [m2, hct, hf]; rfl
+  have c4 : Generated.FloatExprs.castCopiesLongDouble ct true a.flags = true := by rw [m4, hct, hf]; rfl
+  refine ⟨⟨o2, ?_, v2⟩, ⟨o2, ?_, v2⟩, ⟨o1, ?_, v1⟩⟩
+  · simp [convertFromObjectFloat, ha, c2, e2, ofOpt]
+  · simp only [ldConvertFromObject, hr, Option.map] at e2
+    simp [castToFloat, checkBytesForFloat, cast_codes_consistent, ha, c4, hr, ofOpt, e2]
+  · simp [convertToObjectFloat, m1, hct, e1, ofOpt, Except.map]
 
 /-! ## non-vacuity -/
 
@@ -364,5 +473,8 @@ example : narrowNat 0x7ff0000000000001 = 0x7fc00000 := by decide
 example : (8 = 8 ∨ 8 = 16) ∧ 4 + 8 ≤ (List.replicate 16 (0 : UInt8)).length := by decide
 example : (List.replicate 16 (7 : UInt8)).length = ldSize := by decide
 example : natToDouble 65 = 0x4050400000000000 := by decide
+-- the flag hypotheses of the dispatch theorems are met by the real type flags
+example : hasLD (Generated.FloatExprs.CT_PRIMITIVE_FLOAT ||| Generated.FloatExprs.CT_IS_LONGDOUBLE) = true ∧
+    hasLD Generated.FloatExprs.CT_PRIMITIVE_FLOAT = false := by decide
 
 end CffiVerif.C05
